@@ -1,11 +1,248 @@
-/- Driver ops for C07. -/
+/- Driver ops for C07 (regularization matrices). -/
 import Driver.Loop
+import Model.Regularization
 
 open Lean Model
 
 namespace Driver.C07
 
-def ops : List (String × Op) := []
+instance : Zero Float := ⟨0.0⟩
+instance : One Float := ⟨1.0⟩
+
+/-! ### the `inv` oracle of the kernel schemes: exact Gauss–Jordan over `Rat` -/
+
+/-- exact inverse by Gauss–Jordan elimination (first non-zero pivot); `none` = singular -/
+def ratInverse (A : List (List Rat)) : Option (List (List Rat)) :=
+  let n := A.length
+  -- augmented rows
+  let aug : List (List Rat) := A.zipIdx.map fun (r, i) =>
+    r ++ (List.range n).map fun j => if i = j then (1 : Rat) else 0
+  let step (st : Option (List (List Rat))) (c : Nat) : Option (List (List Rat)) :=
+    match st with
+    | none => none
+    | some rows =>
+      -- find pivot row p ≥ c with rows[p][c] ≠ 0
+      match (List.range n).find? (fun p => decide (c ≤ p) && (rows.getD p []).getD c 0 != 0) with
+      | none => none
+      | some p =>
+        let rp := rows.getD p []
+        let rc := rows.getD c []
+        let rows := (rows.set p rc).set c rp
+        let piv := rp.getD c 0
+        let prow := rp.map fun v => v / piv
+        let rows := rows.set c prow
+        some (rows.zipIdx.map fun (r, i) =>
+          if i = c then r else
+            let f := r.getD c 0
+            if f == 0 then r else List.zipWith (fun a b => a - f * b) r prow)
+  match (List.range n).foldl step (some aug) with
+  | none => none
+  | some rows => some (rows.map fun r => r.drop n)
+
+/-- nearest-double of a rational without overflowing on huge numerators/denominators -/
+def ratToFloatSafe (q : Rat) : Float :=
+  if q.num == 0 then 0.0 else
+  let ln : Int := q.num.natAbs.log2
+  let ld : Int := q.den.log2
+  let shift : Int := 64 - (ln - ld)
+  let qi : Int :=
+    if shift ≥ 0 then (q.num * (2 : Int) ^ shift.toNat) / (q.den : Int)
+    else q.num / ((q.den : Int) * (2 : Int) ^ (-shift).toNat)
+  (Float.ofInt qi).scaleB (-shift)
+
+def floatInv (A : List (List Float)) : List (List Float) :=
+  let AR := A.map fun r => r.map fun v => (floatToRat? v).getD 0
+  match ratInverse AR with
+  | some B => B.map fun r => r.map ratToFloatSafe
+  | none => A.map fun r => r.map fun _ => (0.0 / 0.0 : Float)
+
+/-! ### JSON glue -/
+
+def getIntMat := getList getInts
+def getNatTable (n : Nat) (j : Json) : Except String (List (List Nat)) := do
+  pure (pyTable n (← getIntMat j))
+
+structure Num (α : Type) where
+  get : Json → Except String α
+  put : α → Json
+
+def ratNum : Num Rat := ⟨getRat, ratToJson⟩
+def floatNum : Num Float := ⟨getFloat, floatToJson⟩
+
+def matToJson (N : Num α) (M : List (List α)) : Json := listToJson (listToJson N.put) M
+
+def getSplit (N : Num α) (j : Json) : Except String (Impl.SplitTables α) := do
+  let mappings ← getIntMat (← field j "mappings")
+  let sizes ← getNats (← field j "sizes")
+  let weights ← getList (getList N.get) (← field j "weights")
+  pure { mappings := mappings, sizes := sizes, weights := weights }
+
+def splitToJson (N : Num α) (t : Impl.SplitTables α) : Json :=
+  obj [("mappings", listToJson intsToJson t.mappings), ("sizes", natsToJson t.sizes),
+       ("weights", matToJson N t.weights)]
+
+def getObj [Zero α] (N : Num α) (j : Json) : Except String (Impl.LinObj α) := do
+  let params ← getNat (← field j "params")
+  let neighbors ← match j.getObjVal? "neighbors" with
+    | .ok v => getNatTable params v
+    | .error _ => pure []
+  let sizes ← match j.getObjVal? "sizes" with
+    | .ok v => getNats v
+    | .error _ => pure []
+  let signals ← match j.getObjVal? "signals" with
+    | .ok v => getList N.get v
+    | .error _ => pure []
+  let split ← match j.getObjVal? "split" with
+    | .ok v => getSplit N v
+    | .error _ => pure { mappings := [], sizes := [], weights := [] }
+  let points ← match j.getObjVal? "points" with
+    | .ok v => do
+      let rows ← getList (getList N.get) v
+      pure (rows.map fun r => (r.getD 0 0, r.getD 1 0))
+    | .error _ => pure []
+  pure { params := params, neighbors := neighbors, sizes := sizes, signals := signals,
+         split := split, points := points }
+
+def getScheme (N : Num α) (j : Json) : Except String (Impl.Scheme α) := do
+  let name ← getStr (← field j "scheme")
+  let args ← getList N.get (← field j "args")
+  match name, args with
+  | "Constant", [c] => pure (.constant c)
+  | "ConstantZeroth", [cn, cz] => pure (.constantZeroth cn cz)
+  | "Zeroth", [c] => pure (.zeroth c)
+  | "AdaptiveBrightness", [i, o] => pure (.adaptiveBrightness i o)
+  | "BrightnessZeroth", [c] => pure (.brightnessZeroth c)
+  | "ConstantSplit", [c] => pure (.constantSplit c)
+  | "AdaptiveBrightnessSplit", [i, o] => pure (.adaptiveBrightnessSplit i o)
+  | "GaussianKernel", [c, s] => pure (.gaussianKernel c s)
+  | "ExponentialKernel", [c, s] => pure (.exponentialKernel c s)
+  | _, _ => throw "bad scheme"
+
+def runScheme [Add α] [Sub α] [Mul α] [Div α] [Neg α] [Zero α] [One α] (N : Num α)
+    (env : Impl.Env α) (j : Json) : Except String Json := do
+  let s ← getScheme N j
+  let o ← getObj N (← field j "obj")
+  let w := Impl.schemeWeights s o
+  match Impl.schemeMatrix env s o with
+  | .meshException => throw "mesh_exception"
+  | .unboundLocal => throw "unbound_local"
+  | .ok M => pure (obj [("weights", listToJson N.put w), ("matrix", matToJson N M)])
+
+/-- `regularization.regularization_weights_from / regularization_matrix_from (linear_obj)` -/
+def scheme : Op := fun j => do
+  let num ← getStr (fieldD j "num" (Json.str "rat"))
+  if num == "float" then
+    let ridge ← getFloat (← field j "ridge")
+    let ridge2 ← getFloat (← field j "ridge2")
+    runScheme floatNum
+      { ridge := ridge, ridge2 := ridge2, sqrt := Float.sqrt, exp := Float.exp, inv := floatInv } j
+  else
+    let ridge ← getRat (← field j "ridge")
+    let ridge2 ← getRat (← field j "ridge2")
+    runScheme ratNum { ridge := ridge, ridge2 := ridge2, sqrt := id, exp := id, inv := id } j
+
+/-- the `regularization_util` functions called directly -/
+def util : Op := fun j => do
+  let fn ← getStr (← field j "fn")
+  let ridge ← getRat (fieldD j "ridge" (Json.str "0"))
+  match fn with
+  | "zeroth" =>
+    let c ← getRat (← field j "coefficient")
+    let n ← getNat (← field j "pixels")
+    pure (matToJson ratNum (Impl.zerothMatrix c n))
+  | "constant" =>
+    let c ← getRat (← field j "coefficient")
+    let raw ← getIntMat (← field j "neighbors")
+    let sizes ← getNats (← field j "sizes")
+    pure (matToJson ratNum (Impl.constantMatrix ridge c (pyTable raw.length raw) sizes))
+  | "constant_zeroth" =>
+    let c ← getRat (← field j "coefficient")
+    let cz ← getRat (← field j "coefficient_zeroth")
+    let raw ← getIntMat (← field j "neighbors")
+    let sizes ← getNats (← field j "sizes")
+    pure (matToJson ratNum (Impl.constantZerothMatrix ridge c cz (pyTable raw.length raw) sizes))
+  | "adaptive_weights" =>
+    let i ← getRat (← field j "inner")
+    let o ← getRat (← field j "outer")
+    let s ← getRats (← field j "signals")
+    pure (ratsToJson (Impl.adaptiveWeights i o s))
+  | "brightness_zeroth_weights" =>
+    let c ← getRat (← field j "coefficient")
+    let s ← getRats (← field j "signals")
+    pure (ratsToJson (Impl.brightnessZerothWeights c s))
+  | "weighted" =>
+    let w ← getRats (← field j "weights")
+    let raw ← getIntMat (← field j "neighbors")
+    let sizes ← getNats (← field j "sizes")
+    pure (matToJson ratNum (Impl.weightedMatrix ridge w (pyTable w.length raw) sizes))
+  | "brightness_zeroth" =>
+    let w ← getRats (← field j "weights")
+    pure (matToJson ratNum (Impl.brightnessZerothMatrix w))
+  | "reg_split_from" =>
+    let t ← getSplit ratNum (← field j "split")
+    match Impl.regSplitFrom t with
+    | .meshException => throw "mesh_exception"
+    | .unboundLocal => throw "unbound_local"
+    | .ok t' => pure (splitToJson ratNum t')
+  | "pixel_splitted" =>
+    let w ← getRats (← field j "weights")
+    let t ← getSplit ratNum (← field j "split")
+    let ridge2 ← getRat (← field j "ridge2")
+    pure (matToJson ratNum (Impl.pixelSplittedMatrix ridge2 w
+      (pyTable (t.mappings.length / 4) t.mappings) t.sizes t.weights))
+  | "pixel_signals" =>
+    let pixels ← getNat (← field j "pixels")
+    let pw ← getRatMat (← field j "pixel_weights")
+    let idx ← getIntMat (← field j "pix_indexes")
+    let sz ← getNats (← field j "pix_sizes")
+    let sfs ← getNats (← field j "slim_for_sub")
+    let ad ← getRats (← field j "adapt_data")
+    let scale ← getNat (← field j "signal_scale")
+    pure (ratsToJson (Impl.adaptivePixelSignals (fun v => v ^ scale) pixels pw idx sz sfs ad))
+  | _ => throw "bad fn"
+
+/-- `gauss_cov_matrix_from` / `exp_cov_matrix_from` (Float: `sqrt`, `exp` are libm's) -/
+def cov : Op := fun j => do
+  let kind ← getStr (← field j "kind")
+  let scale ← getFloat (← field j "scale")
+  let ridge ← getFloat (← field j "ridge")
+  let rows ← getList getFloats (← field j "points")
+  let pts := rows.map fun r => (r.getD 0 0, r.getD 1 0)
+  let k ← match kind with
+    | "gauss" => pure (Impl.gaussKernel Float.exp scale)
+    | "exp" => pure (Impl.expKernel Float.exp scale)
+    | _ => throw "bad kind"
+  pure (matToJson floatNum (Impl.covMatrix k Float.sqrt ridge pts))
+
+/-- `Inversion.regularization_matrix`, `.regularization_matrix_reduced`, `.no_regularization_index_list` -/
+def inversion : Op := fun j => do
+  let objsJ ← getArr (← field j "objs")
+  let objs ← objsJ.mapM fun oj => do
+    let p ← getNat (← field oj "params")
+    let m ← match oj.getObjVal? "scheme" with
+      | .ok _ => do
+        -- the object's own scheme, evaluated by the model (rational schemes only)
+        let ridge ← getRat (← field j "ridge")
+        let ridge2 ← getRat (← field j "ridge2")
+        let s ← getScheme ratNum oj
+        let o ← getObj ratNum (← field oj "obj")
+        match Impl.schemeMatrix
+            { ridge := ridge, ridge2 := ridge2, sqrt := id, exp := id, inv := id } s o with
+        | .ok M => pure (some M)
+        | _ => throw "mesh_exception"
+      | .error _ =>
+        match oj.getObjVal? "matrix" with
+        | .ok Json.null => pure none
+        | .ok v => do pure (some (← getRatMat v))
+        | .error _ => pure none
+    pure (p, m)
+  pure (obj [
+    ("matrix", matToJson ratNum (Impl.inversionMatrix objs)),
+    ("reduced", matToJson ratNum (Impl.reducedMatrix objs)),
+    ("no_reg", natsToJson (Impl.noRegIndexList (objs.map fun o => (o.1, o.2.isSome))))])
+
+def ops : List (String × Op) :=
+  [("c07.scheme", scheme), ("c07.util", util), ("c07.cov", cov), ("c07.inversion", inversion)]
 
 end Driver.C07
 
